@@ -129,6 +129,30 @@ fn shuttle_yield() {
     }
 }
 
+/// An "unbounded" channel: a bounded one whose capacity is never reached.
+pub fn unbounded<T>() -> (Sender<T>, Receiver<T>) {
+    bounded(1 << 30)
+}
+
+#[derive(PartialEq, Eq, Clone, Copy, Debug)]
+pub enum RecvTimeoutError {
+    Timeout,
+    Disconnected,
+}
+#[derive(PartialEq, Eq, Clone, Copy)]
+pub enum SendTimeoutError<T> {
+    Timeout(T),
+    Disconnected(T),
+}
+impl<T> std::fmt::Debug for SendTimeoutError<T> {
+    fn fmt(&self, f: &mut std::fmt::Formatter<'_>) -> std::fmt::Result {
+        match self {
+            SendTimeoutError::Timeout(..) => "Timeout(..)".fmt(f),
+            SendTimeoutError::Disconnected(..) => "Disconnected(..)".fmt(f),
+        }
+    }
+}
+
 pub fn bounded<T>(cap: usize) -> (Sender<T>, Receiver<T>) {
     assert!(cap > 0, "zero-capacity (rendezvous) channels are not modelled");
     let core = sim::register_chan(std::any::type_name::<T>(), cap);
@@ -196,6 +220,16 @@ impl<T> Sender<T> {
             }
         }
     }
+    /// Real time does not exist in the simulation: a timed send is one attempt after a scheduling
+    /// point (the timeout "expires" whenever the scheduler says so).
+    pub fn send_timeout(&self, msg: T, _d: Duration) -> Result<(), SendTimeoutError<T>> {
+        shuttle_yield();
+        match self.try_send(msg) {
+            Ok(()) => Ok(()),
+            Err(TrySendError::Full(m)) => Err(SendTimeoutError::Timeout(m)),
+            Err(TrySendError::Disconnected(m)) => Err(SendTimeoutError::Disconnected(m)),
+        }
+    }
     pub fn len(&self) -> usize {
         self.chan.core.0.queued.get()
     }
@@ -258,6 +292,14 @@ impl<T> Receiver<T> {
             Ok(()) => Ok(self.chan.pop(true).expect("permit without message")),
             Err(TryAcquireError::NoPermits) => Err(TryRecvError::Empty),
             Err(TryAcquireError::Closed) => self.chan.pop(false).ok_or(TryRecvError::Disconnected),
+        }
+    }
+    pub fn recv_timeout(&self, _d: Duration) -> Result<T, RecvTimeoutError> {
+        shuttle_yield();
+        match self.try_recv() {
+            Ok(v) => Ok(v),
+            Err(TryRecvError::Empty) => Err(RecvTimeoutError::Timeout),
+            Err(TryRecvError::Disconnected) => Err(RecvTimeoutError::Disconnected),
         }
     }
     pub fn iter(&self) -> Iter<'_, T> {
